@@ -14,6 +14,8 @@
          (the json.Marshal / json.Unmarshal pair that copies the revision-specific header into
           CommonInfoHeader is the field-by-field copy it amounts to: equal field names, all of
           them integers or byte arrays)
+     pkg/intel/metadata/fit/ent_startup_ac_module_entry.go  EntrySACMParseSize -> [sacm_parse_size],
+                          ParseSACMData -> [sacm_parse] (section 5)
      pkg/amd/psb/keys.go  readExponent, readModulus as called by newTokenOrRootKey: only the
          allocation ledgers [key_alloc_orig] / [key_alloc] (the values are modelled by
          Model/Amd.v [new_root_key] and Model/Integrity.v [parse_token_or_root]); repaired by
@@ -292,3 +294,64 @@ Definition read_area_alloc_orig (imglen off size : Z) : Z := size.
 Definition read_area_alloc (imglen off size : Z) : Z :=
   let avail := Z.max 0 (imglen - off) in
   Z.min size (2 * avail + 4096).
+
+(* ---------------------------------------------------------------- *)
+(* 5. FIT startup ACM data: EntrySACMParseSize, ParseSACMData        *)
+(* ---------------------------------------------------------------- *)
+
+(* pkg/intel/metadata/fit/ent_startup_ac_module_entry.go
+     EntrySACMParseSize(b)  -> [sacm_parse_size]: written as the code is, the slice b[24:] and the
+       four bytes binary.LittleEndian.Uint32 indexes are checked operations (Panic 1 / Panic 2);
+       the guard in front of them makes both unreachable (MiscProofs.sacm_parse_size_total).
+     ParseSACMData(r)       -> [sacm_parse]: the 128-byte common header (binary.Read), the header
+       version dispatch, the key size check, the version-specific rest (binary.Read into the
+       reflect-built struct: a fixed number of bytes), the user area read through
+       readBytesFromReader (io.CopyN into a growing buffer, as repaired by
+       /verif/fixes/C20-fit-readbytes-bounds.diff).
+   The struct sizes and header version numbers below are literals: they are checked against the Go
+   code by the correspondence op `sacm` of the C20 executor (value and class on every input). *)
+Definition SACM_SHORT : Z := 1.     (* EntrySACMParseSize: range error *)
+
+Definition sacm_parse_size (b : bytes) : outcome Z :=
+  if fit_sacm_size_offset >=? zlen b - 4 then Err SACM_SHORT else
+  if zlen b <? fit_sacm_size_offset then Panic 1 else            (* b[24:] *)
+  if zlen b - fit_sacm_size_offset <? 4 then Panic 2 else        (* Uint32: b[3] of the slice *)
+  Ok (u32 (rd fit_sacm_size_offset 4 b * 4)).                    (* uint32 << 2 *)
+
+Definition SACM_COMMON : Z := 1.    (* unable to parse startup AC module entry *)
+Definition SACM_VERSION : Z := 2.   (* unknown ACM header version *)
+Definition SACM_KEYSIZE : Z := 3.   (* invalid key size *)
+Definition SACM_SPECIFIC : Z := 4.  (* cannot parse version-specific headers *)
+Definition SACM_USER : Z := 5.      (* unable to read user area *)
+
+Definition sacm_common_size : Z := 128.
+(* header version -> (size of the version-specific part, required key size) *)
+Definition sacm_version (ver : Z) : option (Z * Z) :=
+  if ver =? 0 then Some (1088, 256)
+  else if ver =? 196608 then Some (1600, 384)       (* 0x00030000 *)
+  else if ver =? 262144 then Some (7168, 384)       (* 0x00040000 *)
+  else None.
+
+Record sacm := mkSacm {
+  sacm_ver : Z;
+  sacm_hdr_size : Z;       (* binary.Size of the version's structure *)
+  sacm_user : bytes
+}.
+
+Definition sacm_parse (b : bytes) : outcome sacm :=
+  if zlen b <? sacm_common_size then Err SACM_COMMON else
+  let r1 := zskipn sacm_common_size b in
+  let ver := rd 8 4 b in
+  match sacm_version ver with
+  | None => Err SACM_VERSION
+  | Some (rest, key) =>
+    if negb (rd 120 4 b * 4 =? key) then Err SACM_KEYSIZE else     (* KeySize.Size(): uint64 << 2 *)
+    if zlen r1 <? rest then Err SACM_SPECIFIC else
+    let r2 := zskipn rest r1 in
+    let start := sacm_common_size + rest in
+    let fin := rd 24 4 b * 4 in                                     (* GetSize().Size() *)
+    if start <? fin then
+      if zlen r2 <? fin - start then Err SACM_USER
+      else Ok (mkSacm ver start (zfirstn (fin - start) r2))
+    else Ok (mkSacm ver start [])
+  end.
